@@ -634,7 +634,31 @@ class Interp:
             m = DIM[aslot]
             T = arr(np.eye(m)) if var == n else zeros((DIM[COEF_SPACE[n]], m))
             return (dual(COEF_SPACE[n]), aslot), T
+        from ufl.core.expr import Expr
+
+        if isinstance(x, Expr) and not x.ufl_shape and not x.ufl_free_indices:
+            return self.expr_vector(x, env)
         raise ModelGap(f"Action operand {type(x).__name__}")
+
+    def expr_vector(self, x, env):
+        """A scalar Expr that is a linear combination of Coefficients with constant factors, as (slots, dofs)."""
+        from ufl import classes as C
+
+        if isinstance(x, C.Coefficient):
+            n = self.coef_name(x)
+            return (dual(COEF_SPACE[n]),), env[n]
+        if isinstance(x, C.Sum):
+            (sa, a), (sb, b) = (self.expr_vector(o, env) for o in x.ufl_operands)
+            if sa != sb:
+                raise Malformed("sum of elements of different spaces")
+            return sa, add(a, b)
+        if isinstance(x, C.Product):
+            a, b = x.ufl_operands
+            for fac, vec in ((a, b), (b, a)):
+                if isinstance(fac, C.ScalarValue | C.Constant):
+                    s_, v = self.expr_vector(vec, env)
+                    return s_, scale(self.pw(fac, None, env, {}), v)
+        raise ModelGap(f"not a linear combination of coefficients: {type(x).__name__}")
 
     # -- forms -------------------------------------------------------------------------------------
     def leaves(self, o, acc_args, acc_coefs, seen):
